@@ -21,14 +21,18 @@ add("C01", EXPL,
     "Every text within one edit (thorough: two substitutions over a 12-character cross-section) of "
     "structure-conforming base IBANs of all countries of the tree's table is executed through "
     "IBAN() and compared with an independent ISO 13616 reference; a coverage statement over that "
-    "deviation space, not a proof for all strings.",
+    "deviation space, not a proof for all strings. Also: white-space paddings to every raw length up to "
+    "90, dictionary tokens over every offset, the same core after a 4 500-call API prelude, and under "
+    "python -O.",
     "Trusts the reference model mc/ref/iban.py + mc/ref/reg.py (reads the tree's registry JSON "
     "itself). Texts further than the bound from every base are not explored.",
     "DESIGN.md section 4 C01")
 
 TECH_INPUT = ("bounded exhaustive enumeration of the stated input-deviation space, every case executed "
               "on the real code and judged by an independent reference model (stateless explicit "
-              "enumeration, no sampling)")
+              "enumeration, no sampling); each shard in its own fork of the pristine process, plus "
+              "deliberate call sequences (same BBAN text under partner countries, API-activity prelude, "
+              "refused calls) and, where stated, a python -O interpreter")
 add("C02", EXPL, TECH_INPUT,
     "For every country a residue-complete BBAN family (all 97 values of the mod-97 residue) x all 100 "
     "check-digit pairs is executed through IBAN.from_bban and IBAN(); the verdict can only depend on "
